@@ -30,8 +30,8 @@ function makeItem(b, rng, kind, st, hostInfo) {
     }
     case 'model': case 'modelComputed': {
       if (st.usedNames.has('model')) return null; st.usedNames.add('model');
-      if (kind === 'modelComputed' && !hostInfo.isComp) return null;
-      const m = makeModel(b, hostInfo, 'ident', kind === 'modelComputed' ? 'computedSecond' : 'none', 'none', 0);
+      // on an element an argument is unusual, but whatever is emitted must obey the flag contract
+      const m = makeModel(b, kind === 'modelComputed' ? { ...hostInfo, isComp: true } : hostInfo, 'ident', kind === 'modelComputed' ? 'computedSecond' : 'none', 'none', 0);
       return m ? { t: 'model', den: m.den, src: m.attrSrc, kind } : null;
     }
     default: return makeAttr(b, rng, kind, st);
@@ -65,7 +65,8 @@ function buildTree(b, rng, depth, st) {
   const n = 1 + rng.int(3);
   for (let i = 0; i < n; i++) {
     const roll = rng();
-    if (depth > 0 && roll < 0.45) children.push(C.el(buildTree(b, rng, depth - 1, st)));
+    if (depth > 0 && roll < 0.4) children.push(C.el(buildTree(b, rng, depth - 1, st)));
+    else if (roll < 0.47) children.push(C.el({ tag: rng.bool() ? { kind: 'html', name: 'br', src: 'br' } : { kind: 'unbound', name: 'Icon', src: 'Icon' }, attrs: [], children: [], selfClose: true }));
     else if (roll < 0.6) { b.importNamed('probe:lib', 'vA'); children.push({ ...C.expr(b.leaf('vA'), 'vA'), shape: 'ident', bound: true }); }
     else if (roll < 0.7) { const g = b.global({ k: 'str', v: 'u' }); children.push({ ...C.expr(b.leaf(g), g), shape: 'ident', bound: false }); }
     else if (roll < 0.8) { const f = b.fnGlobal({ k: 'str', v: 'c' }); children.push({ ...C.expr(b.leaf(`${f}()`), `${f}()`), shape: 'call' }); }
@@ -228,6 +229,12 @@ export async function check(group, records) {
     const base = { gid: group.gid, vid: v.vid, feature: `${group.feature}|${optLabel(v.options)}`, nontrivial: true };
     if (!rec || rec.status !== 'ok') { out.push(inconclusive({ ...base, reason: `transform status ${rec && rec.status}` })); continue; }
     if (rec.n_err > 0) { out.push(inconclusive({ ...base, reason: 'transform reported an error' })); continue; }
+    {
+      const h = rec.hooks || {};
+      const end = (h.events || []).find((e) => e.startsWith('module_end'));
+      const hk = h.slot_underflow > 0 ? 'underflow' : h.slot_push !== h.slot_pop ? 'unbalanced' : end && !/stack_depth=0\b/.test(end) ? 'not-empty-at-module-end' : null;
+      if (hk) { out.push(violated({ ...base, oracle: 'slot-flag stack balanced (hook invariant)', sig: `C13/hook/slot-flag-stack-${hk}`, detail: { push: h.slot_push, pop: h.slot_pop, underflow: h.slot_underflow, end } })); continue; }
+    }
     const opts = effectiveOptions(v.options);
     const live = (r) => {
       const e = r.thunks[0];
